@@ -16,4 +16,6 @@ PROPERTY Adjacent
 PROPERTY NumLang
 PROPERTY ReLang
 PROPERTY Brackets
+PROPERTY DetSound
+PROPERTY DetComplete
 CHECK_DEADLOCK FALSE
